@@ -615,7 +615,25 @@ fn cmd_check(id: &str, tier: Tier) -> i32 {
         let ev = evidence(scn.as_ref(), tier, seed, &b, wall, 1, &known, &notes, &[], extra);
         let _ = std::fs::write(&evpath, ev.render());
         if !reproduced {
-            harness_error(&format!("replay of {} in a fresh process did not reproduce the violation", path));
+            // The in-process minimiser executes thousands of candidates in one address space. If the
+            // code under test keeps state outside its objects (a `static` memo), a candidate can fail
+            // only because of what an earlier candidate left behind, and the minimised file is then
+            // not a replay. Redo the work with one fresh process per execution, starting from the run
+            // as it was generated; failing that, from the batch prefix on one thread (also a pure
+            // function of seed and code).
+            println!("note: {} does not reproduce in a fresh process - state outside the objects under test is suspected; minimising again with one fresh process per execution", path);
+            match fresh_process_minimise(&f.trace, &target, &path) {
+                Some((n_ops, n_tests, detail)) => {
+                    println!("violation in run {} (oracle {}): {} ops minimised to {} in {} fresh-process executions", f.run, target.oracle, orig_len, n_ops, n_tests);
+                    println!("  {}", detail);
+                }
+                None => match batch_prefix_replay(id, tier, seed, nruns, &path) {
+                    Some(upto) => {
+                        println!("violation reproduced by executing runs 0..={} of the batch in order on one thread in a fresh process (replay file of kind batch-prefix)", upto);
+                    }
+                    None => harness_error(&format!("replay of {} in a fresh process did not reproduce the violation, neither did the unminimised run nor the batch on one thread", path)),
+                },
+            }
         }
         println!("VIOLATION property={} replay={}", id, abs.display());
         return 1;
@@ -651,6 +669,149 @@ fn cmd_check(id: &str, tier: Tier) -> i32 {
     0
 }
 
+
+/// Run `replay <path>` in a fresh process and return the violation it printed, if any.
+fn replay_child_capture(path: &str) -> Option<(String, String)> {
+    let exe = std::env::current_exe().unwrap_or_else(|_| "pcsim".into());
+    let out = std::process::Command::new(exe)
+        .args(["replay", path])
+        .env("PCSIM_CHILD", "1")
+        .env("PCSIM_QUIET", "1")
+        .env("PCSIM_SUPERVISOR", std::process::id().to_string())
+        .output()
+        .ok()?;
+    if out.status.code() != Some(1) {
+        return None;
+    }
+    let text = String::from_utf8_lossy(&out.stdout);
+    for l in text.lines() {
+        if let Some(rest) = l.strip_prefix("replay: op ") {
+            // "replay: op N oracle X: detail"
+            let mut it = rest.splitn(2, " oracle ");
+            let _n = it.next()?;
+            let tail = it.next()?;
+            let mut jt = tail.splitn(2, ": ");
+            let oracle = jt.next()?.to_string();
+            let detail = jt.next().unwrap_or("").to_string();
+            return Some((oracle, detail));
+        }
+    }
+    None
+}
+
+/// Delta debugging with one fresh process per candidate (slow, bounded): used only when the
+/// in-process result does not replay. Leaves the minimised replay file at `path`.
+fn fresh_process_minimise(orig: &Trace, target: &Violation, path: &str) -> Option<(usize, usize, String)> {
+    let tmp = format!("{}.cand", path);
+    let t_start = Instant::now();
+    let budget = std::time::Duration::from_secs(150);
+    let mut execs = 0usize;
+    let mut run = |t: &Trace| -> Option<Violation> {
+        if t_start.elapsed() > budget {
+            return None;
+        }
+        let mut c = t.clone();
+        c.expect = None;
+        if std::fs::write(&tmp, c.render()).is_err() {
+            return None;
+        }
+        execs += 1;
+        let (oracle, detail) = replay_child_capture(&tmp)?;
+        Some(Violation { oracle, op_index: t.ops.len().saturating_sub(1), detail })
+    };
+    // the run exactly as generated must fail on its own, else this route is closed
+    let first = run(orig)?;
+    if !minimise::same_class(&first, target) {
+        let _ = std::fs::remove_file(&tmp);
+        return None;
+    }
+    let mut start = orig.clone();
+    if target.op_index + 1 < start.ops.len() {
+        let mut c = start.clone();
+        c.ops.truncate(target.op_index + 1);
+        if let Some(v) = run(&c) {
+            if minimise::same_class(&v, target) {
+                start = c;
+            }
+        }
+    }
+    let tgt = Violation { oracle: target.oracle.clone(), op_index: start.ops.len().saturating_sub(1), detail: first.detail.clone() };
+    let (mut min, minv, _) = minimise::minimise(&start, &tgt, &mut run);
+    let _ = std::fs::remove_file(&tmp);
+    // settle the expectation with a last fresh execution of exactly what is written
+    min.expect = None;
+    std::fs::write(path, min.render()).ok()?;
+    let (oracle, detail) = match replay_child_capture(path) {
+        Some(x) => x,
+        None => {
+            // the budget ran out mid-way and the last accepted candidate is what we keep
+            let _ = minv;
+            let mut o = orig.clone();
+            o.expect = None;
+            std::fs::write(path, o.render()).ok()?;
+            min = o;
+            replay_child_capture(path)?
+        }
+    };
+    if oracle != target.oracle {
+        return None;
+    }
+    min.expect = Some(op::Expect { oracle, detail: detail.clone() });
+    std::fs::write(path, min.render()).ok()?;
+    if replay_child_capture(path).is_none() {
+        return None;
+    }
+    Some((min.ops.len(), execs, detail))
+}
+
+/// Last resort for state that outlives a run: execute the batch in run order on one thread in a
+/// fresh process; the first failing run index R makes "runs 0..=R on one thread" the replay.
+fn batch_prefix_replay(id: &str, tier: Tier, seed: u64, nruns: u64, path: &str) -> Option<u64> {
+    let exe = std::env::current_exe().unwrap_or_else(|_| "pcsim".into());
+    let find = |upto: u64| -> Option<u64> {
+        let out = std::process::Command::new(&exe)
+            .args(["prefix", id, tier_name(tier), &upto.to_string()])
+            .env("PCSIM_CHILD", "1")
+            .env("VERIF_SEED", seed.to_string())
+            .env("PCSIM_SUPERVISOR", std::process::id().to_string())
+            .output()
+            .ok()?;
+        if out.status.code() != Some(1) {
+            return None;
+        }
+        let text = String::from_utf8_lossy(&out.stdout);
+        text.lines().find_map(|l| l.strip_prefix("prefix: first failing run ").and_then(|r| r.trim().parse().ok()))
+    };
+    let r = find(nruns.saturating_sub(1))?;
+    // must be stable: the same prefix again, in another fresh process
+    if find(r)? != r {
+        return None;
+    }
+    let text = format!("# pcsim replay v1 property={} origin: seed={} batch prefix\nbatch-prefix property={} tier={} seed={} upto={}\n", id, seed, id, tier_name(tier), seed, r);
+    std::fs::write(path, text).ok()?;
+    Some(r)
+}
+
+/// `prefix <id> <tier> <upto>`: runs 0..=upto of the batch, in order, on this one thread.
+fn cmd_prefix(id: &str, tier: Tier, upto: u64) -> i32 {
+    let scn = scenario(id).unwrap_or_else(|| harness_error("unknown property"));
+    let seed: u64 = std::env::var("VERIF_SEED").ok().and_then(|s| s.trim().parse().ok()).unwrap_or(1);
+    let tables = spec::tables();
+    let known = load_known();
+    let b = run_batch(scn.as_ref(), tables, &known, seed, tier, upto + 1, 1, false);
+    match b.failure {
+        Some(f) => {
+            println!("prefix: first failing run {}", f.run);
+            println!("prefix: oracle {}: {}", f.violation.oracle, f.violation.detail);
+            1
+        }
+        None => {
+            println!("prefix: no violation in runs 0..={}", upto);
+            0
+        }
+    }
+}
+
 fn cmd_replay(path: &str) -> i32 {
     if std::env::var("PCSIM_CHILD").is_err() {
         return match run_child(&["replay", path], &[], false) {
@@ -668,6 +829,22 @@ fn cmd_replay(path: &str) -> i32 {
         Ok(t) => t,
         Err(e) => harness_error(&format!("{}: {}", path, e)),
     };
+    if let Some(l) = text.lines().find(|l| l.starts_with("batch-prefix ")) {
+        let get = |k: &str| l.split_whitespace().find_map(|w| w.strip_prefix(&format!("{}=", k)).map(|v| v.to_string()));
+        let (prop, tier, seed, upto) = match (get("property"), get("tier"), get("seed"), get("upto").and_then(|u| u.parse::<u64>().ok())) {
+            (Some(p), Some(t), Some(s), Some(u)) => (p, t, s, u),
+            _ => harness_error(&format!("{}: malformed batch-prefix line", path)),
+        };
+        let tier = if tier == "thorough" { Tier::Thorough } else { Tier::Quick };
+        std::env::set_var("VERIF_SEED", &seed);
+        let rc = cmd_prefix(&prop, tier, upto);
+        if rc == 1 {
+            println!("VIOLATION property={} replay={}", prop, path);
+        } else {
+            println!("replay: no violation");
+        }
+        return rc;
+    }
     let trace = match Trace::parse(&text) {
         Ok(t) => t,
         Err(e) => harness_error(&format!("{}: {}", path, e)),
@@ -768,6 +945,11 @@ fn main() {
             args.get(1).unwrap_or_else(|| harness_error("show <id> <run>")),
             args.get(2).and_then(|s| s.parse().ok()).unwrap_or(0),
             tier_of(args.get(3)),
+        ),
+        Some("prefix") => cmd_prefix(
+            args.get(1).unwrap_or_else(|| harness_error("prefix <id> <tier> <upto>")),
+            tier_of(args.get(2)),
+            args.get(3).and_then(|s| s.parse().ok()).unwrap_or(0),
         ),
         Some(id) if id.starts_with('C') => cmd_check(id, tier_of(args.get(1))),
         _ => {
